@@ -589,13 +589,54 @@ pub fn families(tier: Tier, variant: &str) -> Vec<Family> {
     let k = all.len() as u64;
     let mut v = vec![];
     {
-        let depth = if q { 2 } else { 3 };
+        let depth = 2;
         let a2 = all.clone();
         v.push(Family::new(&format!("fenced/histories<=depth{} x all drop orders ({} operations)", depth, k), gen::seq_count(k, depth), move |idx, ctx| {
             let mut seq = vec![];
             gen::nth_seq(k, depth, idx, &mut seq);
             crate::props::c01::warm_up();
             run_history(ctx, &seq, &a2, true, !q);
+        }));
+    }
+    if !q {
+        // depth 3 over a medium alphabet: every kind of source, the sharing operations and the
+        // drops (the full alphabet at depth 3 is 100 000 fenced histories x drop orders)
+        use Op::*;
+        let medium: Vec<Op> = vec![
+            Parse(0),
+            Parse(1),
+            DeserializeMany,
+            StreamMany,
+            StructFields,
+            DeserializeManyRaw,
+            StreamWithError,
+            ParseSmall(0),
+            ParseSmall(1),
+            SmallRootsInVec,
+            ParseRejected(1),
+            CloneSub(0, Sel::A),
+            CloneSub(1, Sel::A1),
+            InsertCloneInto(0, 1),
+            TakeSub(0),
+            Promote(0),
+            Drop(0),
+            Drop(1),
+            DropOnOtherThread(0),
+            MutateOnOtherThread(0),
+            CloneOnOtherThread(0),
+        ];
+        let km = medium.len() as u64;
+        let m2 = medium.clone();
+        v.push(Family::new(&format!("fenced/medium-alphabet({} ops) histories<=depth3 x all drop orders", km), gen::seq_count(km, 3), move |idx, ctx| {
+            let mut seq = vec![];
+            gen::nth_seq(km, 3, idx, &mut seq);
+            crate::props::c01::warm_up();
+            run_history(ctx, &seq, &medium, true, true);
+        }));
+        v.push(Family::new(&format!("plain/medium-alphabet({} ops) histories<=depth4 x all drop orders", km), gen::seq_count(km, 4), move |idx, ctx| {
+            let mut seq = vec![];
+            gen::nth_seq(km, 4, idx, &mut seq);
+            run_history(ctx, &seq, &m2, false, true);
         }));
     }
     {
@@ -617,7 +658,7 @@ pub fn families(tier: Tier, variant: &str) -> Vec<Family> {
             MutateOnOtherThread(0),
         ];
         let kc = core.len() as u64;
-        let depth = if q { 3 } else { 5 };
+        let depth = if q { 3 } else { 4 };
         v.push(Family::new(&format!("fenced/core-histories<=depth{} x all drop orders", depth), gen::seq_count(kc, depth), move |idx, ctx| {
             let mut seq = vec![];
             gen::nth_seq(kc, depth, idx, &mut seq);
@@ -643,7 +684,7 @@ pub fn families(tier: Tier, variant: &str) -> Vec<Family> {
     }
     {
         // unfenced, deeper: contents of all survivors in all drop orders
-        let depth = if q { 3 } else { 4 };
+        let depth = 3;
         let a3 = all.clone();
         v.push(Family::new(&format!("plain/histories<=depth{} x drop orders", depth), gen::seq_count(k, depth), move |idx, ctx| {
             let mut seq = vec![];
